@@ -7,6 +7,7 @@ import (
 	"os"
 	"os/exec"
 	"path/filepath"
+	"runtime/debug"
 	"sort"
 	"strings"
 	"sync"
@@ -274,6 +275,9 @@ func runMutants(prop string) *mutantSummary {
 			}
 		}
 	}
+	// the baseline program is garbage now: give its memory back before the workers (each a process of
+	// its own holding a whole program) start
+	debug.FreeOSMemory()
 	results := make([]MutantResult, len(ms))
 	sem := make(chan struct{}, 6)
 	var wg sync.WaitGroup
